@@ -57,8 +57,13 @@ type Bundle struct {
 //
 // [1] https://wpack-wg.github.io/bundled-responses/draft-ietf-wpack-bundled-responses.html#signatures-section
 func (e *Exchange) AddPayloadIntegrity(ver version.Version, recordSize int) (string, error) {
-	if e.Response.Header.Get("Digest") != "" {
+	if len(e.Response.Header.Values("Digest")) != 0 {
 		return "", errors.New("bundle: the exchange already has the Digest: header")
+	}
+	// Verifiers refuse records larger than 16384 bytes, and the encoder cannot
+	// work with a record size below 1.
+	if recordSize < 1 || recordSize > 16384 {
+		return "", fmt.Errorf("bundle: record size %d is outside 1..16384", recordSize)
 	}
 
 	encoding := ver.MiceEncoding()
